@@ -55,7 +55,7 @@ Proof. exact cap_denied_refuses. Qed.
 
 Theorem checksum_mismatch_refuses :
   forall (vreq ver : Type) (sat : vreq -> ver -> bool) (c : config) (p : policy vreq) (f : nfile ver) (expected : N),
-    p_checksum p = Some expected -> fnv_bytes (concat (f_chunks f)) <> expected ->
+    p_checksum p = Some expected -> fnv_bytes (List.concat (f_chunks f)) <> expected ->
     has_event ELoaded (native_module_decision vreq ver sat c (Some p) f) = false /\
     has_event ERegistered (native_module_decision vreq ver sat c (Some p) f) = false /\
     has_event EInit (native_module_decision vreq ver sat c (Some p) f) = false.
@@ -99,7 +99,7 @@ Theorem aasm_route_ignores_manifest_refuted :
 Proof. exact aasm_witness. Qed.
 
 (* the two FNV-1a implementations (file in chunks / byte slice) agree on every byte sequence *)
-Theorem fnv_file_eq_fnv_bytes : forall chunks : list (list N), fnv_file chunks = fnv_bytes (concat chunks).
+Theorem fnv_file_eq_fnv_bytes : forall chunks : list (list N), fnv_file chunks = fnv_bytes (List.concat chunks).
 Proof. exact fnv_file_eq_fnv_bytes_lemma. Qed.
 
 (* every spelling of every subset of {fs, net, exec} denotes that subset; nothing = nothing; trusted = all *)
@@ -132,7 +132,7 @@ Proof. exact tables_ok_true. Qed.
 
 Example caps_nonvacuous :
   caps_fs default_config = false /\ caps_net default_config = false /\
-  List.length (reachable_natives default_config nv_requests) = 216 /\
+  List.length (reachable_natives default_config nv_requests) = 209 /\
   forallb (fun n => negb (String.eqb (fst n) "fs") && negb (String.eqb (fst n) "net")) (reachable_natives default_config nv_requests) = true /\
   nmem ("sys", "exec") (reachable_natives default_config nv_requests) = true /\
   exec_guard default_config ("sys", "exec") = DeniedE.
